@@ -140,7 +140,7 @@ def run_threaded(case, P):
     """lists longer than the 3-level RX FIFO: the peer's application drains in its own task while send() runs"""
     res = Result()
     lk = Link(case.get("drv", "full"), case.get("peer", "full"), mcu=case.get("mcu"), plus=case.get("plus", True), warm=case.get("warm"), shared_spi=False)  # two tasks = two MCUs: they cannot share a host's spidev object
-    res.label("plus-chips" if case.get("plus", True) else "nonplus-chips", "cold-chips" if case.get("warm") is None else "warm-chips", "shared-spidev" if case.get("shared_spi") else "own-spidev")
+    res.label("plus-chips" if case.get("plus", True) else "nonplus-chips", "cold-chips" if case.get("warm") is None else "warm-chips", "own-spidev")
     sim, T, R, tx, rx = lk.sim, lk.T, lk.R, lk.tx, lk.rx
     configure(case, lk)
     dyn, L, pipe = bool(case["dyn"]) or bool(case.get("ackmode")), case["plen"], case["pipe"]
